@@ -1155,6 +1155,9 @@ func (w *_structAssembler) AssembleKey() datamodel.NodeAssembler {
 
 // repeatedField returns ErrRepeatedMapKey if the named field was assembled before.
 func (w *_structAssembler) repeatedField(name string) error {
+	if w.schemaType.Field(name) == nil {
+		return nil // not a field at all: AssembleValue reports that
+	}
 	ftyp, ok := w.val.Type().FieldByName(fieldNameFromSchema(name))
 	if ok && len(ftyp.Index) == 1 && w.doneFields[ftyp.Index[0]] {
 		return datamodel.ErrRepeatedMapKey{Key: basicnode.NewString(name)}
